@@ -448,6 +448,10 @@ func (p *PeerSim) Craft(m *MsgSpec) (string, []byte, *SwapCtx, error) {
 			pub = "zz" + pub[2:]
 		}
 		var limit int64
+		rate := p.w.Cfg.RatePPM // the rate the node charges this peer: peer-specific if configured
+		if p.w.Cfg.PeerRatePPM != nil {
+			rate = *p.w.Cfg.PeerRatePPM
+		}
 		switch m.Limit {
 		case "", "ok":
 			limit = int64(amount) // generous
@@ -456,9 +460,9 @@ func (p *PeerSim) Craft(m *MsgSpec) (string, []byte, *SwapCtx, error) {
 		case "neg":
 			limit = -1
 		case "exact":
-			limit = int64(amount) * p.w.Cfg.RatePPM / 1000000
+			limit = int64(amount) * rate / 1000000
 		case "low":
-			limit = int64(amount)*p.w.Cfg.RatePPM/1000000 - 1
+			limit = int64(amount)*rate/1000000 - 1
 		default:
 			limit, _ = strconv.ParseInt(m.Limit, 10, 64)
 		}
